@@ -33,6 +33,7 @@ Definition spec_step (d : disk) (o : op) : disk * res :=
     | None => (d, RErr EBadSlot)
     | Some k => (Disk (N.setbit (d_loose d) k) (d_packs d) (slot_del w (d_ow d)) (d_pw d), ROk)
     end
+  | FailObj => (d, RErr EOther)
   | SetObj k => (Disk (N.setbit (d_loose d) k) (d_packs d) (d_ow d) (d_pw d), ROk)
   | NewPack w p =>
     match slot_get w (d_pw d) with
